@@ -1,7 +1,8 @@
 -------------------------- MODULE Trace_XlsxSheet --------------------------
 (* code -> spec: for every sheet the driver generated (token list) and read   *)
 (* with the real Xlsx reader (observed range), the reader machine of         *)
-(* XlsxSheet.tla run over the same tokens must yield exactly that range.     *)
+(* XlsxSheet.tla run over the same tokens must yield exactly that range, and  *)
+(* the observed cells must sit at the positions the writer intended.          *)
 EXTENDS XlsxSheet, Json, IOUtils
 
 Rec == ndJsonDeserialize(IOEnv.TRACE)
@@ -17,6 +18,11 @@ TSheet == /\ l <= Len(Rec) /\ Ev.e = "sheet"
           /\ LET r == FromSparseOf(Run(RInit, Ev.tokens, 1).out)
              IN /\ r.start = Ev.start /\ r.end = Ev.end
                 /\ r.cells = Ev.cells
+          \* and, independently of the transcription: the observed non-empty cells sit exactly at
+          \* the positions the writer intended (p of every value-carrying cell token)
+          /\ {<<Ev.cells[i][1], Ev.cells[i][2]>> : i \in 1..Len(Ev.cells)}
+               = {<<Ev.tokens[i].p[1], Ev.tokens[i].p[2]>> :
+                    i \in {j \in 1..Len(Ev.tokens) : Ev.tokens[j].k = "c" /\ Ev.tokens[j].v # "none"}}
           /\ l' = l + 1
 Next == TSheet
 Spec == Init /\ [][Next]_l
